@@ -22,7 +22,8 @@ func init() {
 		Gen: genC47, Exec: execC47,
 		Quick:    sim.Budget{Runs: 400, WallS: 60},
 		Thorough: sim.Budget{Runs: 40000, WallS: 900},
-		LevelText: "seeded search over signed messages on a simulated byzantine link (tamper signature / key / hash, cross-scheme delivery, replay under another key); " +
+		LevelText: "seeded search over signed messages on a simulated byzantine link (tamper signature / key / hash, cross-scheme delivery, replay under another key) " +
+			"plus histories on one long-lived receiver scheme object per scheme (re-keyed with SetPublicKey to an unrelated key / a third key / back, the pair that just verified checked again after every re-key, tampered variants and another signer's signature right after a success); " +
 			"a clean batch is evidence, not proof",
 		LevelNote: "input-class property hosted in the simulation: schedules contribute nothing; the trusted base is herumi BLS / Go ed25519 as shipped and the oracle's notion of 'effective tamper' (decoded bytes differ)",
 		Technique: "deterministic simulation: seeded tamper-fault injection on signed messages, receiver = real encryption + client code",
